@@ -46,28 +46,37 @@ def proInsnType (w : Nat) : ProInsnType :=
       if inp ≠ 31 ∨ res ≠ expected then .notExpected else .veryLikely
     else .notExpected
 
-/-- `reverse_step_instruction`: `some offset'` = valid prologue instruction, `none` = unexpected. -/
-def proReverseStep (w : Nat) (spOff : Int) : Option Int :=
-  if w = 0xd503237f then some spOff
+inductive ProStep where
+  | valid (off : Int)
+  | unexpected
+  | fpSetUp
+
+/-- `reverse_step_instruction` -/
+def proReverseStep (w : Nat) (spOff : Int) : ProStep :=
+  if w = 0xd503237f then .valid spOff
   else if (w >>> 22) &&& 0b1011111001 = 0b1010100000 then
     let wb := (w >>> 23) &&& 0b11
-    if wb = 0 then none
-    else if (w >>> 5) &&& 0b11111 ≠ 31 then none
+    if wb = 0 then .unexpected
+    else if (w >>> 5) &&& 0b11111 ≠ 31 then .unexpected
     else if wb = 0b11 ∨ wb = 0b01 then
-      if inI32 (spOff - imm7x8 w) then some (spOff - imm7x8 w) else none
-    else some spOff
+      if inI32 (spOff - imm7x8 w) then .valid (spOff - imm7x8 w) else .unexpected
+    else .valid spOff
+  else if (w >>> 23) &&& 0b111111111 = 0b100100010 ∧ w &&& 0b11111 = 29 ∧ (w >>> 5) &&& 0b11111 = 31 then
+    .fpSetUp
   else if (w >>> 23) &&& 0b111111111 = 0b110100010 then
-    if w &&& 0b11111 ≠ 31 ∨ (w >>> 5) &&& 0b11111 ≠ 31 then none
-    else if inI32 (spOff + imm12 w) then some (spOff + imm12 w) else none
-  else none
+    if w &&& 0b11111 ≠ 31 ∨ (w >>> 5) &&& 0b11111 ≠ 31 then .unexpected
+    else if inI32 (spOff + imm12 w) then .valid (spOff + imm12 w) else .unexpected
+  else .unexpected
 
-/-- Walk backwards over the words before pc until an unexpected instruction. -/
-def proScan : List Nat → Int → Int
-  | [], off => off
+/-- Walk backwards over the words before pc until an unexpected instruction; `none` when the
+walk meets `mov x29, sp` / `add x29, sp, #n` (the frame record is complete: body rule). -/
+def proScan : List Nat → Int → Option Int
+  | [], off => some off
   | w :: rest, off =>
     match proReverseStep w off with
-    | some off' => proScan rest off'
-    | none => off
+    | .valid off' => proScan rest off'
+    | .unexpected => some off
+    | .fpSetUp => none
 
 /-- The words of `slice_from_start` (complete 4-byte chunks from its start), last first. -/
 def wordsRev (b : List Nat) : List Nat :=
@@ -84,13 +93,15 @@ def anaPrologueA64 (text : List Nat) (pc : Nat) : Option (Option RuleA64) :=
       let t := proInsnType (wordAt toEnd 0)
       if t = .notExpected then some none
       else
-        let off := proScan (wordsRev fromStart) 0
-        if t = .couldBeWithSub ∧ off = 0 then some none
-        else
-          let q := off.tdiv 16
-          if 0 ≤ q ∧ q < 65536 then
-            some (some (if q = 0 then .noOp else .offsetSp q.toNat))
-          else some none
+        match proScan (wordsRev fromStart) 0 with
+        | none => some none
+        | some off =>
+          if t = .couldBeWithSub ∧ off = 0 then some none
+          else
+            let q := off.tdiv 16
+            if 0 ≤ q ∧ q < 65536 then
+              some (some (if q = 0 then .noOp else .offsetSp q.toNat))
+            else some none
 
 inductive EpiInsnType where
   | notExpected
